@@ -125,6 +125,8 @@ def c10_vocab(run):
 def c17_rf4(run):
     rf_code.rf4(run)
     run.min_instances('RF4', 15)
+    rf_code.rf4d(run)
+    run.min_instances('RF4d', 10)
 
 
 def c12_rf13(run):
@@ -164,6 +166,11 @@ def c01_rf18(run):
 def c04_rf18(run):
     rf_flow.rf18(run, units=('mir',))
     run.min_instances('RF18', 8)
+    rf_dispatch.rf7e(run)
+    run.min_instances('RF7e', 18)
+    rf_dispatch.rf7g(run)
+    run.min_instances('RF7g', 60)
+    rf_dispatch.rf7b(run, units=('mir',))
 
 
 def c16_rf16(run):
@@ -172,6 +179,8 @@ def c16_rf16(run):
     rf_proto.rf16i(run)
     run.min_instances('RF16a', 5)
     run.min_instances('RF16b', 4)
+    rf_dispatch.rf7g(run)
+    run.min_instances('RF7g', 60)
 
 
 def c13_rf16(run):
